@@ -183,12 +183,20 @@ func vBez3(p0, p1, p2, p3, t Fl) Fl {
 //@   ensures in(c.lastKey, 'c', 'C', 's', 'S') ==> c.cntlPtX + old(c.cntlPtX) == 2 * c.currentX && c.cntlPtY + old(c.cntlPtY) == 2 * c.currentY
 //@   ensures !in(c.lastKey, 'c', 'C', 's', 'S') ==> c.cntlPtX == c.currentX && c.cntlPtY == c.currentY
 
+// the point of the ellipse of radii a, b, centre (cx, cy) and x-axis rotation theta at parameter eta is
+//   P(eta) = c + R(theta) (a cos eta, b sin eta),   and its tangent   P'(eta) = R(theta) (-a sin eta, b cos eta):
+// addArc places the inner control points of each cubic piece along that tangent (which keeps the pieces on the
+// ellipse to third order, for rotated ellipses as well)
 //@ func ellipsePrime
 //@   props C18
 //@   nopanic
+//@   ensures[tangent-x] px == -(a * sin(eta)) * cosTheta - (b * cos(eta)) * sinTheta
+//@   ensures[tangent-y] py == -(a * sin(eta)) * sinTheta + (b * cos(eta)) * cosTheta
 //@ func ellipsePointAt
 //@   props C18
 //@   nopanic
+//@   ensures[point-x] px == cx + (a * cos(eta)) * cosTheta - (b * sin(eta)) * sinTheta
+//@   ensures[point-y] py == cy + (a * cos(eta)) * sinTheta + (b * sin(eta)) * cosTheta
 //@ func findEllipseCenter
 //@   props C18
 //@   nopanic
